@@ -22,6 +22,8 @@ ASSUMPTIONS = [
     "~a >> x and a plain list as the left operand of >> / << are not supported spellings and are not generated",
     "for a refused cross-project operation only: error class, no foreign pair recorded, tables consistent and unchanged for pairs not named by the op",
 ]
+# classes of cases that are produced deterministically: their absence is a harness error (see vlib.harness)
+HARD_LABELS = ['project_object_dropped_by_caller']
 REQUIRED_LABELS = {
     "quick": ["reconnect_after_disconnect", "list_overlap", "freed_slot_middle", "cross_project", "self_loop", "mixed_disconnect_list", "other_project_linked", "save_midway", "cross_project_mixed_request", "mixed_request_with_noop_pair", "modules_at_positions_above_256", "operand_list_with_disconnects_reused", "project_object_dropped_by_caller", "fan_out_of_more_than_16", "fan_out_of_more_than_255"],
     "thorough": ["reconnect_after_disconnect", "list_overlap", "freed_slot_middle", "cross_project", "self_loop", "mixed_disconnect_list"],
